@@ -26,6 +26,10 @@ enum : uint16_t {
     E_ASYNC_STATE, // a=ownThreadIsRunning()
     E_NOTE, // s=text
     E_PRODUCER_DONE, // a=producer index
+    E_FLUSH_IN, // a=probe id     (Sink::flush() of a probe sink entered)
+    E_FLUSH_OUT, // a=probe id
+    E_PROBE_IN, // a=probe id b=call id (Sink::send() of a probe sink)
+    E_PROBE_OUT, // a=probe id b=call id
 };
 
 } // namespace tsim
